@@ -196,10 +196,48 @@ def second_line_segs(first):
 
 LEAVES_2 = ["x", "- x", "> x", "# x"]
 
+# (2d) whole documents: every structural blank run of every line (indentation and the blanks after quote / list
+# markers) respelled with tabs wherever a tab ends on a tab stop
+DOC_LINES = [">", "> a", "> - a", ">- a", ">-  a", ">  - a", ">   a", ">     a", "- a", "-  a", "  a", "   a", "    a", "1. a",
+             ">   - b", "> >  a", "-   - a", "     a"]
+STRUCT = re.compile(r"( +)|(>)|([-+*](?= ))|(\d{1,2}[.)](?= ))")
+
+
+def line_segs(line):
+    """split a space-spelled line into structural segments (blank runs and markers) and the rest"""
+    segs = []
+    pos = 0
+    while pos < len(line):
+        m = STRUCT.match(line, pos)
+        if not m:
+            break
+        if m.group(1):
+            segs.append(("b", len(m.group(1))))
+        else:
+            segs.append(("l", m.group(0)))
+        pos = m.end()
+    return segs, line[pos:]
+
+
+def doc_tab_variants(doc, cap=400):
+    per_line = []
+    for line in doc.split("\n"):
+        segs, rest = line_segs(line)
+        alts = [t + rest for t in tab_spellings(segs)] if segs else [line]
+        per_line.append(alts[:12])
+    n = 0
+    for combo in itertools.product(*per_line):
+        v = "\n".join(combo)
+        if "\t" in v:
+            n += 1
+            yield v
+            if n >= cap:
+                return
+
 
 # ---- driver --------------------------------------------------------------------------------------------------
 TAB_PREF = ["", "\t", " \t", "  \t", "   \t", "\t\t", "    ", "  ", "\t ", "\t  "]
-TAB_LEAF = ["", "a", "# a", "---", "- a", "> a", ">", "```", "[a]: /u", "-", "1. a", "<div>", "-\ta", ">\ta"]
+TAB_LEAF = ["", "a", "# a", "---", "- a", "> a", ">", "```", "[a]: /u", "-", "1. a", "<div>", "-\ta", ">\ta", "a\\", "a  "]
 NUL_ATOMS = ["a", " ", "*", "`", "[", "]", "(u)", "<", ">", "\\", "&amp;", "\n", "#", "- ", "> ", "|", "&#", ";", "\"", "://"]
 
 
@@ -245,6 +283,8 @@ def shards(tier):
         for ind0 in ((0, 1, 3) if th else (0, 1)):
             for mk in MARKS:
                 sh.append(("tabs-chain2", d, ind0, mk, th))
+    for f in DOC_LINES:
+        sh.append(("tabs-docs", f, 4 if th else 3))
     return sh
 
 
@@ -315,6 +355,26 @@ def run_shard(sh, acc):
                 acc.violation("tabs-lead", "leading tabs differ from their space expansion",
                               {"cfg": c, "variant": d, "twin": d2}, "tokens differ between the tab and the space spelling")
         acc.sample("tabs-lead", {"variant": f + "\n \t- a\n", "twin": expand_leading(f) + "\n    - a\n"}, 1)
+    elif kind == "tabs-docs":
+        _, f, K = sh
+        c = MAIN[0]
+        md = C.build(c)
+        lines = DOC_LINES if K <= 3 else DOC_LINES[:12]
+        for d in S.docs_with_first(f, lines, K, both_endings=False):
+            ref = acc.call(md.parse, d)
+            if ref is CRASH:
+                continue
+            rs = sig_tabs(ref)
+            for v in doc_tab_variants(d.rstrip("\n"), 60 if K <= 3 else 30):
+                acc.case()
+                got = acc.call(md.parse, v + "\n")
+                if got is CRASH:
+                    continue
+                if sig_tabs(got) != rs:
+                    acc.violation("tabs-docs", "tab spelling of a structural blank run differs from the space spelling",
+                                  {"cfg": c, "variant": v + "\n", "twin": d}, "tokens differ between the tab and the space spelling")
+            acc.sig(("docs", d))
+        acc.sample("tabs-docs", {"variant": "> - a\n>-\tb\n>\n>   c\n", "twin": "> - a\n>-  b\n>\n>   c\n"}, 1)
     elif kind == "tabs-chain2":
         _run_chain2(sh, acc)
     elif kind == "tabs-chain":
